@@ -26,6 +26,7 @@ class Sim:
         if k == 'throw':
             raise SimErr(t[1])
         if k == 'bind':      # ('bind', m, f, handler); f = ('ignore', tree) | ('printthen', tree) | ('retarg',) | ('read',)
+            self.construct(t)    # evaluating the ㄱㄹ expression evaluates its action and function arguments — before anything runs
             try:
                 v = self.run(t[1])
             except SimErr as e:
@@ -46,6 +47,20 @@ class Sim:
         raise ValueError(k)
 
 
+def _construct(self, t):
+    """what *evaluating* a ㄱㄹ expression does: its first argument is evaluated to an action (so a ㄱㄹ there is constructed
+    too), then the continuation and the handler expressions are evaluated to functions — a failure here is raised at
+    evaluation time: nothing has been executed, no handler of this or an enclosing ㄱㄹ is involved"""
+    if t[0] != 'bind':
+        return
+    self.construct(t[1])
+    if t[2][0] == 'evalthrow':
+        raise SimErr(t[2][1])
+    if t[3] is not None and t[3][0] == 'evalthrow':
+        raise SimErr(t[3][1])
+Sim.construct = _construct
+
+
 class ExcVal:
     def __init__(self, n): self.n = n
 
@@ -62,7 +77,7 @@ def fmt(v):
     return str(v)
 
 
-def rand_tree(rng, depth):
+def rand_tree(rng, depth, bad=True):
     """returns (program expression, oracle tree)"""
     c = rng.random()
     if depth <= 0 or c < 0.25:
@@ -87,9 +102,18 @@ def rand_tree(rng, depth):
         # an action that raises when it is *executed*: return 0 >>= λ_. throw exc(n)
         return raw(f"((ㄱ ㄱㅅㅎㄴ) ({enc(n)} ㄷㅂㅎㄴ ㄷㅈㅎㄴ ㅎ) ㄱㄹㅎㄷ)"), ('throw', n)
     # bind m f [h]: the continuation ignores / prints / returns its argument and then runs another tree
-    me, mt = rand_tree(rng, depth - 1)
-    ne, nt = rand_tree(rng, depth - 1)
+    me, mt = rand_tree(rng, depth - 1, bad)
+    ne, nt = rand_tree(rng, depth - 1, bad)
     use = rng.randrange(4)
+    if bad and rng.random() < 0.07:
+        # the continuation (or handler) *expression* is not a function: it raises when evaluated, or is the empty value / a
+        # computed integer — the ㄱㄹ expression has no value and nothing of it is ever executed (seeded change S07i deferred
+        # this evaluation to execution time)
+        kind = rng.randrange(3)
+        bad, payload = [(f"({enc(40)} ㄷㅂㅎㄴ ㄷㅈㅎㄴ)", 40), ("(ㅂㄱㅎㄱ)", "5, 0"), ("(ㄴ ㄷ ㄷㅎㄷ)", "5, 0")][kind]
+        if rng.random() < 0.5:
+            return bi('ㄱㄹ', me, raw(bad)), ('bind', mt, ('evalthrow', payload), None)
+        return bi('ㄱㄹ', me, fundef(ne), raw(bad)), ('bind', mt, ('ignore', nt), ('evalthrow', payload))
     if use == 3:      # the continuation fails while being evaluated (before any action exists)
         n = rng.randint(10, 19)
         fe, ff = fundef(raw(f"({enc(n)} ㄷㅂㅎㄴ ㄷㅈㅎㄴ)")), ('throwing', n)
@@ -104,7 +128,7 @@ def rand_tree(rng, depth):
         if rng.random() < 0.15:
             n = rng.randint(20, 29)
             return bi('ㄱㄹ', me, fe, fundef(raw(f"({enc(n)} ㄷㅂㅎㄴ ㄷㅈㅎㄴ)"))), ('bind', mt, ff, ('hthrow', n))
-        he_, ht_ = rand_tree(rng, depth - 1)
+        he_, ht_ = rand_tree(rng, depth - 1, bad)
         return bi('ㄱㄹ', me, fe, fundef(he_)), ('bind', mt, ff, ht_)
     return bi('ㄱㄹ', me, fe), ('bind', mt, ff, None)
 
@@ -183,7 +207,7 @@ def cases(rng, tier):
     from .. import values as VL
     for _ in range(n // 4):
         stdin = rng.choice(STDINS)
-        m, _ = rand_tree(rng, 2)
+        m, _ = rand_tree(rng, 2, bad=False)     # these families need an action that *has* a value
         # evaluating an expression performs no I/O: actions built and discarded inside pure code
         pure = g.gen('int', None, 2)
         yield Case(program=render(call(fundef(pure), m)), variants=(render(pure),), stdin=stdin, tag='discarded')
